@@ -166,7 +166,7 @@ func (c *fcConc) next(cl *fcClass) fcTriple {
 	case "prevt":
 		st = c.t
 	case "jit":
-		d := c.pick([]int64{0, 1, -3, 4, -4, 5, -31, 32, -32, 33, -255, 256, -256, 257, 1 << 20})
+		d := c.pick([]int64{0, 1, -3, 4, -4, 5, -31, 32, -32, 33, -255, 256, -256, 257, -2047, 2048, -2048, 2049, -131071, 131072, 131073, -16777215, 16777216, 16777217, 1 << 55, -(1 << 55), 1<<55 + 1})
 		st = c.t - (c.stDiff + d)
 		if c.n == 0 {
 			st = t - c.pick([]int64{1, 1000, 15000})
